@@ -30,6 +30,7 @@ func c19Gen(seed uint64, run int, tier string) *Case {
 		c = c07Gen(seed, run, tier)
 		c.Stratum = "script/flushes"
 		c.Cfg["wl"] = 1
+		c.Cfg["flushalways"] = 0 // the recorded C07 finding (a Flush hook cancelling requests it has not seen) is a race by construction
 	case 2:
 		r := NewRand(seed)
 		c = &Case{Cfg: map[string]int64{}}
